@@ -347,6 +347,52 @@ class Engine:
         finally:
             self.stats["feas_s"] = round(self.stats.get("feas_s", 0.0) + _t.time() - _t0, 2)
 
+    def surely_not(self, st, cond):
+        """Is `cond` impossible in state st?  Used where the answer shapes the verification conditions themselves (loop
+        write sets), so it must not depend on timing: first the linear-integer part of the path condition alone (allocation
+        pointers are a chain of integer inequalities; decided instantly and deterministically), then the full
+        quantifier-free context with a generous limit.  `False` means "not shown impossible"."""
+        lia = [h for h in st.pc if self._is_pure_lia(h)]
+        s = z3.Solver()
+        s.set("timeout", 5000)
+        s.add(*lia)
+        s.add(cond)
+        if s.check() == z3.unsat:
+            return True
+        s = z3.Solver()
+        s.set("timeout", 5000)
+        for a in self.global_axioms:
+            if not self._has_quant(a):
+                s.add(a)
+        s.add(*[h for h in st.pc if not self._has_quant(h)])
+        s.add(cond)
+        return s.check() == z3.unsat
+
+    def _is_pure_lia(self, t):
+        cache = self.__dict__.setdefault("_lia_cache", {})
+        i = t.get_id()
+        if i not in cache:
+            ok = True
+            todo, seen = [t], set()
+            while todo and ok:
+                x = todo.pop()
+                if x.get_id() in seen:
+                    continue
+                seen.add(x.get_id())
+                if z3.is_quantifier(x):
+                    ok = False
+                    break
+                srt = x.sort()
+                if not (z3.is_int(x) or z3.is_bool(x)) or (z3.is_app(x) and x.decl().kind() in (z3.Z3_OP_SELECT, z3.Z3_OP_STORE)):
+                    ok = False
+                    break
+                if z3.is_app(x) and x.decl().kind() == z3.Z3_OP_UNINTERPRETED and x.num_args() > 0:
+                    ok = False
+                    break
+                todo.extend(x.children())
+            cache[i] = (t, ok)
+        return cache[i][1]
+
     def _feasible(self, st, cond):
         s = z3.Solver()
         s.set("timeout", self.feas_timeout)
